@@ -101,6 +101,19 @@ func (fv *FnV) doCall(st *State, ins ssa.Instruction, cc *ssa.CallCommon, pos to
 	}
 	fnv := fv.term(fv.val(cc.Value))
 	fv.safety(st, "nil", not(eq(fnv, "nil!ref")), pos)
+	if fv.k != nil {
+		for _, cl := range fv.k.CallAsserts["dynamic"] {
+			env := fv.contractEnv(st, fv.entry, nil)
+			if li := fv.innermostLoop(); li != nil {
+				env.loop = li
+			}
+			t, err := env.evalBool(cl.Text)
+			if err != nil {
+				return nil, fmt.Errorf("%s: at-call dynamic assert %s: %v", fv.name, cl.Label, err)
+			}
+			fv.emit(st, "A", "dynamic."+cl.Label+"@"+fv.siteText(pos, "call"), cl.Props, t, "holds just before the call through a function value: "+cl.Text, pos)
+		}
+	}
 	ms := newModSet()
 	fv.g.dynMods(cc.Value, ms)
 	fv.frameCall(st, ms, "dynamic call", pos)
@@ -251,6 +264,22 @@ func (fv *FnV) moduleCall(st *State, callee *ssa.Function, args []ssa.Value, clo
 	}
 	if k == nil || !k.ErrorIsValue {
 		fv.recordErrCall(st, cname, sig, res, pos)
+	}
+	// reached-flag of this call site (for called(...))
+	if fv.callFlags == nil {
+		fv.callFlags = map[string][]string{}
+	}
+	flag := fmt.Sprintf("X|call%d", int(pos))
+	st.heap[flag] = "true"
+	sc := shortCallee(cname)
+	seen := false
+	for _, f := range fv.callFlags[sc] {
+		if f == flag {
+			seen = true
+		}
+	}
+	if !seen {
+		fv.callFlags[sc] = append(fv.callFlags[sc], flag)
 	}
 	return res, nil
 }
@@ -452,6 +481,7 @@ func (fv *FnV) libCall(st *State, callee *ssa.Function, cc *ssa.CallCommon, pos 
 		ms := newModSet()
 		ms.external = true
 		fv.havoc(st, ms, "wg.Wait")
+		fv.heapSet(st, "G|waited", sto(fv.heapGet(st, "G|waited"), arg(0), "1"))
 		return &SV{typ: sig.Results()}, nil
 	case "bytes.NewBufferString":
 		r := fv.freshRef(st, "buf")
